@@ -20,9 +20,21 @@ package acme
 //@   use dnschars
 //@   safety off
 //@   requires pkginit-dns-filter-as-declared: nonDnsRegex != nil && nonDnsRegex.pattern == "[^a-z0-9-.]+"
+//@   ghost conv int = 0
+//@   ghost prev string = ""
+//@   ghost last string = ""
+//@   ghost lastArg string = ""
+//@   ghost lastErr error = nil
+//@   at call ToASCII#*: ghost lastArg := callarg0
+//@   at after call ToASCII#*: ghost prev := last
+//@   at after call ToASCII#*: ghost last := callresult0
+//@   at after call ToASCII#*: ghost lastErr := callresult1
+//@   at after call ToASCII#*: ghost conv := conv + 1
 //@   ensures failure-returns-no-name: err != nil ==> r == ""
 //@   ensures the-result-is-made-of-lowercase-letters-digits-hyphens-and-dots: err == nil ==> (dnsChars(r) && lower(r) == r && !contains(r, "*"))
 //@   ensures the-result-itself-qualifies-for-a-public-certificate: err == nil ==> certmagic.SubjectQualifiesForPublicCert(r)
+//@   ensures the-result-is-not-an-ip-address: err == nil ==> !certmagic.SubjectIsIP(r)
+//@   ensures local-the-result-is-a-fixed-point-of-the-conversion: err == nil ==> (conv >= 2 && lastErr == nil && lastArg == prev && last == r && prev == r)
 //@   ensures ip-addresses-local-names-and-other-unqualified-subjects-are-rejected: !certmagic.SubjectQualifiesForPublicCert(removeSpace(zone)) ==> err != nil
 //@   ensures wildcards-are-rejected: contains(removeSpace(zone), "*") ==> err != nil
 
